@@ -32,6 +32,9 @@ func genListingCase(t *rapid.T) listingCase {
 		m = rapid.SampledFrom([]int64{80, 8000, 8192, 55440, 17, 100003}).Draw(t, "M")
 	}
 	c.Cfg = gen.AsmConfig{Legacy: legacy, CoreSize: m, Length: m / 2, Distance: 1, Processes: 8}
+	if !legacy {
+		c.Cfg.NOP94 = rapid.Bool().Draw(t, "nop94")
+	}
 	if c.Cfg.Length < 1 {
 		c.Cfg.Length = 1
 	}
@@ -103,6 +106,9 @@ func judgeListingCase(c listingCase, rec *hx.Rec) string {
 		var cl []string
 		if c.Cfg.Legacy {
 			cl = append(cl, "icws88")
+		}
+		if c.Cfg.NOP94 {
+			cl = append(cl, "mode_nop94")
 		}
 		if c.ViaAsm {
 			cl = append(cl, "via_assembler")
